@@ -27,7 +27,9 @@ def leaf_values(k):
         return [None]
     if k == 'OID':
         return [(0, 0), (1, 39), (2, 40), (2, 999, 3), (1, 3, 6, 1, 127), (1, 3, 128), (1, 3, 16383, 16384),
-                (2, 47, 2 ** 32, 0), (0, 39, 1)]
+                (2, 47, 2 ** 32, 0), (0, 39, 1),
+                # first octets 79 | 80 | 81: the last OID under 1, the first two under 2
+                (1, 39, 5), (2, 0, 5), (2, 0), (2, 1)]
     if k == 'REAL':
         return ['inf', '-inf', (0, 2, 0), (1, 2, 0), (1, 2, 1), (-1, 2, -1), (3, 2, 10), (5, 2, -130), (7, 2, 200),
                 (-3, 2, 40000), (1, 2, -70000), (12, 2, 0), (255, 2, 3), (65537, 2, -1), (2 ** 60 + 1, 2, -1),
@@ -134,6 +136,12 @@ def collections():
             out.append((T(kind, ts, elem=T('OCTETSTRING')), [b'b', b'a', b'ab', b'']))
             out.append((T(kind, ts, elem=T('OCTETSTRING', [('E', CTX, 0)])), [b'zz', b'z']))
             out.append((T(kind, ts, elem=T('BOOLEAN')), [True, False, True]))
+    # elements of different types (an untagged CHOICE): the canonical SET OF order compares the encodings as octet strings
+    # padded with zeros -- a longer element with a smaller identifier octet comes first
+    mixed = T('CHOICE', [], fields=[('i', T('INTEGER'), 'req'), ('s', T('OCTETSTRING'), 'req'), ('b', T('BOOLEAN'), 'req')])
+    for kind in ('SETOF', 'SEQUENCEOF'):
+        out.append((T(kind, [], elem=mixed), [('s', b'a'), ('i', 1000), ('b', True), ('i', 5)]))
+        out.append((T(kind, [('I', CTX, 7)], elem=mixed), [('s', b''), ('i', 70000), ('s', b'zz')]))
     return out
 
 
